@@ -26,7 +26,8 @@ def strategy(tier):
     from hypothesis import strategies as st
 
     return st.one_of(S.program_case(["measure", "measure", "op", "kraus", "struct", "comp"], max_steps=4),
-                     S.program_case(["measure", "measure", "op", "kraus", "struct", "comp"], max_steps=4), S.lifecycle_case(max_tail=2))
+                     S.program_case(["measure", "measure", "op", "kraus", "struct", "comp"], max_steps=4), S.lifecycle_case(max_tail=2),
+                     S.survivor_case(touches=("resize", "fockop", "measure", "op", "kraus"), max_touch=2, finals=("measure",)))
 
 
 def run_case(case):
